@@ -14,14 +14,30 @@ sys.path.insert(0, vbuild.HARNESS)
 import nego_ref  # noqa: E402
 
 LEVEL = 'exploration'
-RULE = ('case idx -> kind (idx mod 8): all 36 pairs of version ranges; all 45 singleton client lists x 3 server key kinds; ordered client '
+RULE = ('case idx -> kind (idx mod 9): all 36 pairs of version ranges; all 45 singleton client lists x 3 server key kinds; ordered client '
         'pairs (all 1980 x 3 key kinds in the thorough tier, a seed-dependent sample in quick) against a shuffled server list with and '
         'without BR_OPT_ENFORCE_SERVER_PREFERENCES; all 256 client x server flag combinations with and without a client-certificate '
         'request and client certificate none/RSA/EC; hash subsets (all 64 per side, repaired to the caller\'s obligations: MD5+SHA-1 '
         'below TLS 1.2, MAC and PRF hash of every listed suite) and curve subsets (15 x 15, restricted br_ec_impl); ALPN lists of 0-3 of 4 '
         'names per side, SNI none / SAN names / 255 bytes / arbitrary non-zero bytes; random longer lists; scripted ClientHellos (no '
         'client engine): unknown / GREASE suites, extensions, curves and signature algorithms, duplicated suites, both SCSVs anywhere, no '
-        'or empty extension block, SNI of length 0 / 255 / 256 / 300, legacy and future client_version. All other dimensions of a case '
+        'or empty extension block, SNI of length 0 / 255 / 256 / 300, legacy and future client_version; scripted ServerHellos (no server '
+        'engine) fed to a client engine built from a random client configuration (versions, suites incl. a trailing TLS_FALLBACK_SCSV, '
+        'hashes, curves or none, no signature verifier, ALPN, SNI or none, BR_OPT_FAIL_ON_ALPN_MISMATCH, buffers of 512..4096 bytes so '
+        'that max_fragment_length is sent), in one record cut into chunks of 1 / <=17 / <=600 bytes and in half of the cases followed '
+        'by a record with the start of the Certificate message: 40 % honest answers (any offered suite / version in range, 0-32 byte '
+        'session ID, no / empty / random subset and order of the solicited extensions), 50 % with one and 10 % with two or three of 41 '
+        'defects (version below / above the range, record version differing or with another major, suite not offered / unknown / GREASE '
+        '/ TLS-1.2-only below 1.2 / 00FF / 5600, compression, 33+ byte ID, renegotiation_info with data or bad length, server_name with '
+        'data or unsolicited, max_fragment_length other / unsolicited / bad length, ALPN foreign name / two names / empty list / empty '
+        'name / bad lengths / unsolicited, unsolicited signature_algorithms / supported_groups / ec_point_formats, unknown or GREASE '
+        'extension, duplicated extension, block length, trailing bytes, message length short / long, later record of another version, '
+        'next message not a Certificate, ChangeCipherSpec instead of it); 22 % of the clients offer a session to resume, which the '
+        'server ignores or takes up (same ID: same version and suite, then ChangeCipherSpec; defects: other version, other suite, '
+        'malformed ChangeCipherSpec, a handshake message instead). The reference decodes the client\'s ClientHello (must equal the configuration; tells which '
+        'extensions were sent) and the fed records on its own and demands: carry on without error and report the ServerHello\'s version, '
+        'suite, ALPN name, max-fragment flag and secure-renegotiation status, or fail with the error code documented in bearssl_ssl.h '
+        '(any applicable one for several defects; never report a suite that was not offered). All other dimensions of a case '
         'are drawn at random (server key RSA / P-256 under EC or RSA CA / P-384, usages KEYX / SIGN / both). The reference computes '
         'version, suite, ECDHE curve, signature hash, ALPN name, SNI, alert, error codes, renegotiate() result and client-certificate '
         'visibility from the two configurations and every logged field is compared; both endpoints must agree; the ClientHello on the '
@@ -40,6 +56,15 @@ ASSUMPTIONS = [
     'flag) is taken as the rule',
     'client authentication is exercised with full hash and curve sets and valid client chains only (C03 covers forged ones)',
     'certificate name matching is bypassed for SNI strings that are not in the fixture certificates (C04 covers name matching)',
+    'scripted ServerHello: bearssl_ssl.h documents error codes, not alerts, for a client that refuses a ServerHello (a sent alert '
+    'would show as last_error 512+alert): alerts of the client are counted (srvhello_refused_with/without_alert), not demanded',
+    'scripted ServerHello, error code not judged (only "fails", counted as unjudged_error_code_*) where the header does not pin it '
+    'down: contradictory length fields, malformed ALPN / max_fragment_length / renegotiation_info bodies, a foreign ALPN name under '
+    'BR_OPT_FAIL_ON_ALPN_MISMATCH ("a protocol failure"), a TLS-1.2-only suite below TLS 1.2, a signalling value chosen as suite; a '
+    'ServerHello whose last bytes have not arrived is not judged beyond "no failure on a well-formed beginning"; a HelloRequest '
+    'after the ServerHello is not judged',
+    'TLS_FALLBACK_SCSV / TLS_EMPTY_RENEGOTIATION_INFO_SCSV are not cipher suites (RFC 7507 section 4, RFC 5746 3.3; the header calls '
+    '0x5600 a "signaling pseudo-cipher suite"): a ServerHello selecting one must be refused even when the client listed it',
 ]
 EVAL = ['cases']
 DISTINCT = ['config', 'outcome']
@@ -47,12 +72,26 @@ FIELDS = ['cmp_outcome', 'cmp_version', 'cmp_suite', 'cmp_curve', 'cmp_sig_hash'
           'cmp_alert_record_version', 'cmp_error_code', 'cmp_reneg', 'cmp_client_cert', 'cmp_client_offer', 'cmp_fail_any',
           'cmp_wire_server_hello', 'cmp_wire_extensions', 'cmp_wire_key_exchange',
           'cmp_sides_ver', 'cmp_sides_suite', 'cmp_sides_curve', 'cmp_sides_proto', 'cmp_sides_name', 'cmp_sides_reneg']
+SRV_FIELDS = ['cmp_srvhello_outcome', 'cmp_srvhello_error_code', 'cmp_srvhello_suite_offered', 'cmp_srvhello_version',
+              'cmp_srvhello_suite', 'cmp_srvhello_alpn', 'cmp_srvhello_mfln', 'cmp_srvhello_reneg']
+# every defect class the reference knows must have been met (the rarest ones a handful of times per quick run)
+SRV_DEFECTS = ['srvhello_defect_' + d for d in (
+    'version_out_of_range', 'record_version_differs', 'record_major_version', 'oversized_id', 'suite_not_offered',
+    'suite_is_signalling_value', 'suite_needs_tls12', 'compression', 'extension_not_solicited', 'extension_duplicated',
+    'sni_not_empty', 'mfl_differs', 'mfl_malformed', 'reneg_info_not_empty', 'reneg_info_malformed', 'alpn_malformed',
+    'alpn_name_not_offered_flag', 'framing', 'later_record_version_differs', 'next_message_not_certificate',
+    'ccs_instead_of_certificate', 'resume_mismatch', 'handshake_message_instead_of_ccs', 'malformed_ccs')]
 REQUIRED = ['cases', 'cases_checked', 'cases_pair', 'cases_scripted', 'handshakes_completed', 'handshakes_failed',
             'scripted_answered_server_hello', 'scripted_refused', 'expect_ok', 'expect_alert', 'expect_scripted_ok',
             'expect_scripted_alert', 'scripted_duplicate_suites', 'scripted_unknown_suite_values',
-            'scripted_without_extension_block'] + FIELDS
+            'scripted_without_extension_block',
+            # scripted ServerHello against a client engine
+            'cases_scripted_srv', 'expect_srvhello_accept', 'expect_srvhello_refuse', 'srvhello_accepted', 'srvhello_refused',
+            'srvhello_single_defect', 'srvhello_several_defects', 'srvhello_client_sent_mfl', 'srvhello_mfl_echoed',
+            'srvhello_alpn_foreign_name_without_flag', 'srvhello_client_offers_session', 'srvhello_resumed',
+            'srvhello_resumed_ccs_taken', 'srvhello_full_handshake'] + FIELDS + SRV_FIELDS + SRV_DEFECTS
 NW = 16
-CASES = {'quick': 6000, 'thorough': 300000}
+CASES = {'quick': 6750, 'thorough': 337500}   # 9 slots (h_tls15 NSLOTS): 750 / 37500 cases per slot
 LOGDIR = os.path.join(vbuild.BUILD, 'c15-logs')
 MAX_PER_KEY = 40
 
@@ -124,7 +163,8 @@ def finish(res, tier, seed):
 
 
 def coverage_extra(res, tier):
-    return dict(fields_compared={k: res.sums.get(k, 0) for k in FIELDS},
+    return dict(fields_compared={k: res.sums.get(k, 0) for k in FIELDS + SRV_FIELDS},
+                scripted_server_hello={k: v for k, v in sorted(res.sums.items()) if k.startswith('srvhello_') or k.startswith('scripted_srv')},
                 expectations={k: v for k, v in sorted(res.sums.items()) if k.startswith('expect_') or k.startswith('reason_')},
                 not_judged={k: v for k, v in sorted(res.sums.items()) if k.startswith('unjudged_')},
                 cases_per_tier=CASES, log_dir=LOGDIR)
